@@ -17,7 +17,7 @@ GEN = []
 THEOREMS = [
     "c15_stdio_transcript", "c15_httpJson_transcript", "c15_httpSse_transcript", "c15_sse_transcript",
     "c15_transcript", "c15_carrier_agnostic", "c15_expressible_everywhere",
-    "c15_real_codec_stdio", "c15_real_codec_stdio_good", "c15_real_codec_http", "c15_real_codec_sse",
+    "c15_real_codec_stdio", "c15_real_codec_stdio_line", "c15_real_codec_http", "c15_real_codec_sse",
     "c15_real_transcript", "c15_helpers_agree",
 ]
 RULE = (
@@ -26,8 +26,8 @@ RULE = (
     "Unicode: astral, U+2028/2029/0085, combining marks, controls, BOM; nulls, empty containers, 64-bit integers) or an "
     "error of each class (named permanent, named transient, unnamed codes); ids as the client generated them; server "
     "JSON style in {compact,spaced}x{utf8,ascii}; per carrier random wire choices (stdio: CRLF, byte cuts inside "
-    "characters; JSON: status, session, one-element array; SSE body: event field, spaces, comments, CRLF, tail; legacy "
-    "SSE: pre-events, CRLF, cuts, position of the 202) and latencies across poll boundaries. Each conversation is run "
+    "characters; JSON: status, session, one-element array; SSE body: event field, spaces, comments before fields and before the blank line, interleaved data-less / comment-only / typed non-message events, CRLF, tail; legacy "
+    "SSE: pre-events, CRLF, cuts, position of the 202) latencies across poll boundaries and the three tie orders of the virtual-time loop (events, timers, io). Each conversation is run "
     "on every real carrier able to express it; compared: carrier vs carrier, carrier vs scripted conversation, "
     "carrier vs the four Lean model pipelines (driver `carrier`, alternately on the very bytes the server wrote and on "
     "the model's own encoding). non-trivial = distinct conversation with at least one exchange"
@@ -95,6 +95,11 @@ class Conversations(Suite):
         ref = next(o for o in obs.values() if o)
         text_mode = int(sha(case), 16) % 2 == 0 and len(ref["texts"]) == len(case["xs"])
 
+        def noise(n):
+            ch = lambda c: {"sp": c["sp"], "before": list(c.get("before") or [])}
+            return {"name": n.get("name"), "data": list(n["data"]), "nc": ch(n.get("nc") or {"sp": True}),
+                    "dc": [ch(c) for c in n.get("dc") or []], "after": list(n.get("after") or [])}
+
         def tid(v):
             return {"s": J.cps(v)} if isinstance(v, str) else {"i": v}
 
@@ -128,9 +133,11 @@ class Conversations(Suite):
             for e in c.get("evs") or []:
                 name = e.get("name")
                 evs.append({"name": "absent" if name is None else name, "nc": e.get("nc") or {"sp": True, "before": []},
-                            "dc": e.get("dc") or {"sp": True, "before": []}})
+                            "dc": e.get("dc") or {"sp": True, "before": []}, "after": list(e.get("after") or []),
+                            "before": [noise(n) for n in e.get("before") or []]})
             bodies.append({"post": {"id": tid(ids[k]), "status": c.get("status", 200), "sess": c.get("sess")},
-                           "evs": evs, "eols": list(c.get("eols") or []), "tail": c.get("tail", "full")})
+                           "evs": evs, "eols": list(c.get("eols") or []), "tail": c.get("tail", "full"),
+                           "trailing": [noise(n) for n in c.get("trailing") or []]})
         line["httpsse"] = bodies
         eo = (obs.get("sse") or {}).get("wire") or {}
         line["sse"] = {"pre": eo.get("pre", H.DEFAULT_PRE), "crlf": eo.get("crlf", []),
